@@ -14,7 +14,9 @@ candidates, ballots, seats; any ballot contents) and every lawful arithmetic:
 
 * `cfer_seats_filled_fixed` (cfer and cfer-batch, `DroopProofs/RunCfer.lean`).
 
-Not proved here: mpls, the batch variants of wigm, the Meek family and QPQ (their termination is decided by the
+* `wigm_seats_filled_fixed` (wigm, wigm-prf, wigm-prf-batch; every configuration except `defeat_batch=zero`).
+
+Not proved here: mpls, wigm with `defeat_batch=zero`, the Meek family and QPQ (their termination is decided by the
 correspondence runs and the `okC01` oracle on both records), and the case seats > candidates.
 -/
 namespace Droop.C01
@@ -81,5 +83,45 @@ theorem cfer_seats_filled_fixed (p : Nat) (batch : Bool) (s0 : St Int) (hinit : 
 
 example : GStart (fixedArith 4) (cferQuota (fixedArith 4) C02.tiny) C02.tiny :=
   cfer_start 4 C02.tiny C02.tiny_init (by intro c hc; simp [C02.tiny] at hc; rcases hc with rfl | rfl <;> simp) (by decide) rfl
+
+/-! ## wigm, wigm-prf, wigm-prf-batch (every configuration except `defeat_batch=zero`) -/
+
+theorem wigmQuota_fixed (p : Nat) (o : WigmOpts) (s0 : St Int) :
+    wigmQuota (fixedArith p) o s0 =
+      if o.prf = false ∧ o.integerQuota = true then (1 + pdiv s0.nballots (s0.seats + 1)) * pow10 p
+      else cferQuota (fixedArith p) s0 := by
+  unfold wigmQuota
+  by_cases hp : o.prf = true
+  · simp [hp, cferQuota]
+  · by_cases hi : o.integerQuota = true
+    · simp [hp, hi, fixedArith]
+    · simp [hp, hi, cferQuota, fixedArith]
+
+theorem wigm_start (p : Nat) (o : WigmOpts) (s0 : St Int) (hinit : Init (fixedArith p) s0)
+    (hfresh : ∀ c ∈ s0.cands, c.st ≠ .elected) (henough : s0.seats ≤ nHop s0) (hround : s0.round = 0) :
+    GStart (fixedArith p) (wigmQuota (fixedArith p) o s0) s0 := by
+  by_cases hc : o.prf = false ∧ o.integerQuota = true
+  · have hS := pow10_pos p
+    have hq : wigmQuota (fixedArith p) o s0 = (1 + pdiv s0.nballots (s0.seats + 1)) * pow10 p := by
+      rw [wigmQuota_fixed, if_pos hc]
+    rw [hq]
+    have hnn : 0 ≤ pdiv (s0.nballots : Int) ((s0.seats : Int) + 1) := pdiv_nonneg _ _ (by positivity) (by positivity)
+    refine ⟨hinit, by positivity, hfresh, henough, hround, ?_⟩
+    have := integer_droopQuota (fixedArith p) (fixed_lawful p) s0.nballots s0.seats
+    simp only [fixedArith, Int.cast_id] at this ⊢
+    push_cast at this ⊢
+    linarith
+  · have hq : wigmQuota (fixedArith p) o s0 = cferQuota (fixedArith p) s0 := by rw [wigmQuota_fixed, if_neg hc]
+    rw [hq]
+    exact cfer_start p s0 hinit hfresh henough hround
+
+theorem wigm_seats_filled_fixed (p : Nat) (o : WigmOpts) (hz : o.batchZero = false) (s0 : St Int)
+    (hinit : Init (fixedArith p) s0) (hfresh : ∀ c ∈ s0.cands, c.st ≠ .elected) (henough : s0.seats ≤ nHop s0)
+    (hround : s0.round = 0) :
+    ∃ t, wigmCount (fixedArith p) o s0 = some t
+      ∧ RecMon (snaps t.acts) ∧ Ext s0 t ∧ (t.crash = none → nEl t = t.seats ∧ nHop t = 0) := by
+  have h0 := wigm_start p o s0 hinit hfresh henough hround
+  obtain ⟨t, ht⟩ := wigmCount_terminates' _ (fixed_lawful p) o hz (fun _ => rfl) s0 h0
+  exact ⟨t, ht, wigm_result _ (fixed_lawful p) o hz (fun _ => rfl) s0 t h0 ht⟩
 
 end Droop.C01
